@@ -4,6 +4,8 @@ import (
 	"fmt"
 	"strings"
 
+	"math/rand"
+
 	"github.com/inspirer/textmapper/lalr"
 	"github.com/inspirer/textmapper/status"
 )
@@ -136,4 +138,35 @@ func xinfoStr(gp *GenParser) string {
 		errSym = p.ErrorSymbol
 	}
 	return fmt.Sprintf("%s %s %s %d %s %s", rs, b2s(g.Options.FixWhitespace), b2s(p.IsRecovering), errSym, ints(afterErr), b2s(g.Options.Cancellable))
+}
+
+// addMarkers sprinkles state markers (erased from the tables, present in Rule.RHS) into a grammar:
+// at random positions, with a bias toward the very start of a rule in front of a nonterminal.
+func addMarkers(r *rand.Rand, lg *lalr.Grammar) int {
+	if len(lg.Rules) == 0 {
+		return 0
+	}
+	lg.Markers = []string{"m0", "m1"}
+	n := 1 + r.Intn(3)
+	for k := 0; k < n; k++ {
+		ri := r.Intn(len(lg.Rules))
+		rhs := lg.Rules[ri].RHS
+		pos := r.Intn(len(rhs) + 1)
+		if r.Intn(2) == 0 {
+			pos = 0
+			// prefer a rule that starts with a nonterminal
+			for tries := 0; tries < 8; tries++ {
+				rj := r.Intn(len(lg.Rules))
+				if rr := lg.Rules[rj].RHS; len(rr) > 0 && int(rr[0]) >= lg.Terminals {
+					ri, rhs = rj, rr
+					break
+				}
+			}
+		}
+		nr := append([]lalr.Sym(nil), rhs[:pos]...)
+		nr = append(nr, lalr.Marker(r.Intn(2)))
+		nr = append(nr, rhs[pos:]...)
+		lg.Rules[ri].RHS = nr
+	}
+	return n
 }
